@@ -9,6 +9,7 @@ import (
 	"os"
 	"path/filepath"
 	"strconv"
+	"strings"
 	"sync"
 	"sync/atomic"
 	"syscall"
@@ -134,7 +135,10 @@ func after(r *result, n int) {
 
 var c13Scenarios = []struct{ name, variant string }{
 	{"open-wait", "no-writer"},
+	{"open-wait", "no-writer-debug"},
+	{"open-wait", "pipe-replaced"}, // the FIFO is renamed away and a new one created at its path before the cancellation
 	{"idle-read", "writer-silent"},
+	{"idle-read", "writer-silent-debug"},
 	{"logins-handoff", "unbuffered-unread"},
 	{"backpressure", "cap0"},
 	{"backpressure", "cap1"},
@@ -167,9 +171,9 @@ func runC13Scenario(tmp, name, variant string, rep int) result {
 	defer os.RemoveAll(dir)
 	switch name {
 	case "open-wait":
-		scOpenWait(&r, dir)
+		scOpenWait(&r, dir, variant)
 	case "idle-read":
-		scIdleRead(&r, dir)
+		scIdleRead(&r, dir, variant)
 	case "logins-handoff":
 		scLoginsHandoff(&r)
 	case "backpressure":
@@ -192,14 +196,14 @@ func runC13Scenario(tmp, name, variant string, rep int) result {
 }
 
 // (a) Ingest waiting for a writer to open the FIFO.
-func scOpenWait(r *result, dir string) {
+func scOpenWait(r *result, dir, variant string) {
 	path, err := mkfifo(dir, "pipe")
 	if err != nil {
 		r.HarnessErr = "mkfifo: " + err.Error()
 		return
 	}
 	var calls atomic.Int64
-	ing := namedpipe.NewNamedPipeIngester(zap.NewNop().Sugar(), health.NewHealth())
+	ing := namedpipe.NewNamedPipeIngester(hutil.Logger(strings.HasSuffix(variant, "-debug")), health.NewHealth())
 	ctx, cancel := context.WithCancel(context.Background())
 	defer cancel()
 	done := make(chan error, 1)
@@ -207,26 +211,40 @@ func scOpenWait(r *result, dir string) {
 		done <- ing.Ingest(ctx, path, '\n', func(context.Context, string) error { calls.Add(1); return nil })
 	}()
 	time.Sleep(c13Settle) // nothing observable marks "blocked in open"; either side of it is a state of the property
+	blockedOn := path
+	if variant == "pipe-replaced" {
+		// the producer re-created its pipe: the opener stays blocked on the old inode, the path names a new FIFO
+		blockedOn = path + ".old"
+		if err := os.Rename(path, blockedOn); err != nil {
+			r.HarnessErr = "rename: " + err.Error()
+		} else if err := syscall.Mkfifo(path, 0o600); err != nil {
+			r.HarnessErr = "mkfifo: " + err.Error()
+		}
+	}
 	if cancelAndWait(r, cancel, done) {
 		r.Before = int(calls.Load())
 		time.Sleep(c13After)
 		after(r, int(calls.Load())-r.Before)
 	}
-	releaseOpener(path)
+	releaseOpener(blockedOn)
 	if !r.Returned {
-		<-done
+		releaseOpener(path)
+		select {
+		case <-done:
+		case <-time.After(2 * time.Second):
+		}
 	}
 }
 
 // (b) Ingest blocked reading an idle FIFO.
-func scIdleRead(r *result, dir string) {
+func scIdleRead(r *result, dir, variant string) {
 	path, err := mkfifo(dir, "pipe")
 	if err != nil {
 		r.HarnessErr = "mkfifo: " + err.Error()
 		return
 	}
 	var calls atomic.Int64
-	ing := namedpipe.NewNamedPipeIngester(zap.NewNop().Sugar(), health.NewHealth())
+	ing := namedpipe.NewNamedPipeIngester(hutil.Logger(strings.HasSuffix(variant, "-debug")), health.NewHealth())
 	ctx, cancel := context.WithCancel(context.Background())
 	defer cancel()
 	done := make(chan error, 1)
